@@ -48,17 +48,29 @@ def gen(tier, seed):
                 for rep in range(1 if tier == "quick" else 4):
                     ws = [F(rnd.randint(1, 40), rnd.choice((1, 2, 3, 7))) for _ in range(n - p)]
                     cases.append({"k": "gen", "g": "weight", "p": p, "n": n, "ws": fsl(ws)})
+                    # mixed number classes: integral weights are passed as int, the others as Fraction
+                    ws = [F(rnd.randint(1, 9), rnd.choice((1, 1, 2, 3))) for _ in range(n - p)]
+                    cases.append({"k": "gen", "g": "weight", "p": p, "n": n, "ws": fsl(ws), "mixed": True})
                     cases.append({"k": "gen", "g": "random", "p": p, "n": n, "ws": [], "npseed": rnd.randint(0, 10 ** 6)})
     cases.append({"k": "gen", "g": "floatsweep", "p": 1, "n": 2, "ws": [], "nmax": 80 if tier == "quick" else 400,
                   "npseed": seed})
     vecs = shape_vectors(3, 2) if tier == "quick" else shape_vectors(4, 3)
     vecs += [random_vector(rnd, pmax=4, mmax=4, big=(i % 3 == 0)) for i in range(20 if tier == "quick" else 300)]
+    # the special end values 0 and 1: copies of some vectors moved so that they end at 1, end at 0, start at 1
+    extra = []
+    for v in rnd.sample(vecs, 12 if tier == "quick" else 120):
+        U = v["U"]
+        for off in (1 - U[-1], -U[-1], 1 - U[0]):
+            extra.append(dict(v, U=[x + off for x in U], kind="moved-ends", force_normalize=True))
+    vecs = vecs + extra
     for v in vecs:
         U, p = v["U"], v["p"]
         ops = [("shift", rand_q(rnd)), ("shift", F(rnd.randint(-10 ** 12, 10 ** 12), 10 ** 9 + 7)),
                ("scale", F(rnd.randint(1, 30), rnd.randint(1, 9))), ("scale", rnd.choice((F(0), F(-1), F(-2, 3)))),
                ("normalize", None)]
-        if tier == "quick":
+        if v.get("force_normalize"):
+            ops = [ops[4], ops[rnd.randrange(3)]]
+        elif tier == "quick":
             ops = rnd.sample(ops[:3], 1) + ops[3:] if v["kind"] != "uniform" else rnd.sample(ops, 2)
         nodes = node_set(U, p, outside=False)
         if tier == "quick":
@@ -111,11 +123,14 @@ def impl(case):
             elif g == "uniform":
                 kv = G.uniform(p, n, Fraction)
             elif g == "weight":
-                kv = G.weight(p, nums(case["ws"]))
+                ws = nums(case["ws"])
+                if case.get("mixed"):
+                    ws = [int(w) if w.denominator == 1 else w for w in ws]
+                kv = G.weight(p, ws)
             else:
                 np.random.seed(case["npseed"])
                 kv = G.random(p, n, Fraction)
-            info["types"] = all(isinstance(x, Fraction) for x in kv)
+            info["types"] = all(isinstance(x, Fraction) or (case.get("mixed") and isinstance(x, int)) for x in kv)
             info["npts"] = int(kv.npts)
             return {"U": out_nums(list(kv)), "p": int(kv.degree)}
         r = capture(build)
